@@ -54,6 +54,9 @@ func C07() api.Check {
 		id: "C07", quick: 16000, thorough: 400000,
 		variants: allVariants,
 		gen: func(seed uint64, idx int, tier string) item {
+			if idx%6 == 5 {
+				return item{c: gen.LockShadow(seed), sub: "lock-shadow"}
+			}
 			c := gen.HangProne(seed)
 			sub := "hang-prone"
 			if c.Ref.End.DefinedError() {
@@ -137,6 +140,9 @@ func C10() api.Check {
 		gen: func(seed uint64, idx int, tier string) item {
 			if idx%5 == 4 {
 				return item{c: gen.RMW(seed), sub: "rmw"}
+			}
+			if idx%10 == 3 {
+				return item{c: gen.LockShadow(seed), sub: "lock-shadow"}
 			}
 			return item{c: gen.MemPairs(seed), sub: "mem-pairs"}
 		},
